@@ -235,7 +235,16 @@ func jsonHasAny(defs []meta.Definition, container map[string]interface{}) bool {
 
 func jsonKeyMatches(keyFields []meta.Leafable, candidate map[string]interface{}, key []val.Value) bool {
 	for i, field := range keyFields {
-		if fqkGetOrNil(field, candidate) != key[i].String() {
+		if i >= len(key) || key[i] == nil {
+			return false
+		}
+		raw := fqkGetOrNil(field, candidate)
+		if raw == key[i].String() {
+			continue
+		}
+		// a number or boolean in the document is the key when it is the same typed value
+		v, err := leafOrLeafListJsonReader(field, raw)
+		if err != nil || v == nil || !val.Equal(v, key[i]) {
 			return false
 		}
 	}
